@@ -305,9 +305,16 @@ fn variant_struct_name(goenv: &GlobalGoEnv, enum_name: &str, variant_name: &str)
         }
     }
     // A variant is a Go type of its own: it also needs its enum's name in front when a struct or
-    // an enum of the program has that name (`struct Circle`, `enum Shape { Circle(Circle) }`).
+    // an enum of the program has that name (`struct Circle`, `enum Shape { Circle(Circle) }`), or
+    // a foreign type (`extern type Time`, `enum Ev { Time(int32) }`).
     let names_a_type = goenv.structs().any(|(name, _)| name.0 == variant_name)
-        || goenv.enums().any(|(name, _)| name.0 == variant_name);
+        || goenv.enums().any(|(name, _)| name.0 == variant_name)
+        || goenv
+            .genv
+            .type_env
+            .extern_types
+            .keys()
+            .any(|name| name == variant_name);
     if count > 1 || names_a_type {
         format!("{}_{}", go_ident(enum_name), go_ident(variant_name))
     } else {
